@@ -56,7 +56,7 @@ def trigger_cases(ctx, shapes, prefix="g"):
             cfg = None
         else:
             text = plssdoc.render_doc(doc, ctx.rng)
-            cfg = ctx.rng.choice([None, "segment", "sec_colon_cautious", "parse_qq", "parse_qq", "clean_qq,parse_qq"])
+            cfg = ctx.rng.choice([None, "segment", "sec_colon_cautious", "parse_qq", "parse_qq", "clean_qq,parse_qq", "segment,sec_within"])
         if ctx.rng.random() < 0.12:
             # the wording stands outside the description proper - before the first / after the last Twp/Rge -, where
             # `segment` has no chunk for it (§8 #12): it warrants the warning all the same
@@ -65,7 +65,9 @@ def trigger_cases(ctx, shapes, prefix="g"):
             extra = "%s %s" % (cap, TAILS[kind])
             body = plssdoc.render_doc(doc, ctx.rng)
             text = (extra + ", " + body) if doc["layout"] in ("TRS_desc", "TR_desc_S") else (body + ", " + extra)
-            cfg = ctx.rng.choice(["segment", "segment", "segment,parse_qq", None])
+            # (alone and together with the other modes: each of them is documented to combine with `segment`)
+            cfg = ctx.rng.choice(["segment", "segment", "segment,parse_qq", None, "segment,sec_within", "sec_within,segment,parse_qq",
+                                  "segment,sec_colon_cautious", "sec_within"])
         cases.append({"id": "%s%d" % (prefix, i), "kind": "plss", "origin": "trigger placement", "abs": {},
                       "args": {"text": text, "config": cfg, "source": "SRC-1", "post": ctx.rng.choice(POSTS),
                                "triggers": [{"kind": kind, "phrase": key}]}})
